@@ -642,6 +642,20 @@ def single_kind_strategy(kind):
     return build()
 
 
+def _enum_argument_forms():
+    """requests whose content may be given as text or as bytes (a group subject, a status), each form answered by a result and by
+    an error"""
+    err = ("iq", {"type": "error", "id": "x", "from": "s.whatsapp.net"}, [("error", {"code": "403", "text": "forbidden"}, None)])
+    res = ("iq", {"type": "result", "id": "x", "from": "s.whatsapp.net"}, None)
+    forms = [("SubjectGroupsIqProtocolEntity", ["4915112345-1500000000@g.us", "new subject"]),
+             ("SubjectGroupsIqProtocolEntity", ["4915112345-1500000000@g.us", {"b": b"new subject".hex()}]),
+             ("SetStatusIqProtocolEntity", ["away"]), ("SetStatusIqProtocolEntity", [{"b": b"away".hex()}])]
+    for kind, args in forms:
+        for mode, reply in (("result", res), ("error", err)):
+            for axolotl in (False, True):
+                yield {"sub": "history", "axolotl": axolotl, "ops": [["req", kind, args, {}], ["reply", 0, mode, S.tree_to_json(reply)], ["replay", 0]]}
+
+
 def internal_strategy():
     sel = st.integers(0, 7)
     op = st.one_of(st.tuples(st.just("msg"), sel).map(list), st.tuples(st.just("msg"), sel).map(list), st.just(["count"]),
@@ -679,7 +693,7 @@ def plan(tier):
         strategies.append(("kind:" + kind, single_kind_strategy(kind), 2 if quick else 40))
     return {
         "shards": 16,
-        "enumerations": [("keepalive_between_application_requests", _enum_keepalive)],
+        "enumerations": [("keepalive_between_application_requests", _enum_keepalive), ("text_and_bytes_forms_of_request_content", _enum_argument_forms)],
         "strategies": strategies,
         "shrink": "hypothesis",
         "budget_s": 200 if quick else 1800,
